@@ -57,6 +57,25 @@ def gen_case(seed, tier="quick"):
         dom = GG.gen_iv(r, "x") if c < 0.2 else (GG.gen_sph(r, "x") if c < 0.3 else GG.gen_prim2(r, "x"))
         case.update(dom=dom, pspace=[], prow=[], n=r.choice((200, 500, 1000, 4000)))
         return case
+    r4 = rnd(seed, "union-rows")
+    if law == "uniform" and r4.random() < 0.15:
+        # dedicated cell: a union whose mixture weight |A(t)|/|A(t)+B| differs between the parameter rows
+        # of one call; the operands are far apart, with or without the disjoint flag
+        rad = GG.q(r4.uniform(0.4, 1.0))
+        A = {"k": "circ", "var": "x", "c": [GG.q(r4.uniform(-2, 2)), GG.q(r4.uniform(-2, 2))],
+             "r": ["aff", rad, GG.q(r4.uniform(1.0, 3.0)), "t"]} if r4.random() < 0.6 else \
+            GG.gen_par(r4, "x", "t", 1.0, tri=r4.random() < 0.3)
+        Bn = {"k": "circ", "var": "x", "c": [GG.q(r4.uniform(15, 20)), GG.q(r4.uniform(15, 20))], "r": GG.q(r4.uniform(0.5, 1.5))} \
+            if r4.random() < 0.5 else {"k": "par", "var": "x", "o": [15.0, 15.0], "c1": [GG.q(r4.uniform(16, 18)), 15.0],
+                                       "c2": [15.0, GG.q(r4.uniform(16, 18))]}
+        a, b = (A, Bn) if r4.random() < 0.5 else (Bn, A)
+        dom = {"k": "union", "a": a, "b": b, "disjoint": r4.random() < 0.5}
+        k = r4.choice((2, 3))
+        rows = [[GG.q(v)] for v in r4.sample([r4.uniform(0, 0.2), r4.uniform(0.4, 0.6), r4.uniform(0.8, 1.0)], k)]
+        j = r4.randrange(k)
+        case.update(dom=dom, pspace=[["t", 1]], prow=rows[j], prows_extra=rows[:j] + rows[j + 1:], prow_index=j,
+                    M=M, n=r4.choice((2000, 5000)))
+        return case
     for _ in range(50):
         dom, pspace = geo_cases.gen_domain(r, rng, max_depth=2)
         if _law_defined(dom):
@@ -81,6 +100,13 @@ def gen_case(seed, tier="quick"):
     if not composite and dom["k"] != "prod" and r.random() < 0.25:
         case["mode"] = "d"
         case["d"] = 2000.0
+    elif pspace and "prod" not in G.kinds(dom):
+        r2 = rnd(seed, "rows")
+        if r2.random() < 0.5:
+            # the law holds for every parameter row of a batch: judge one block of a call with 2-3 rows
+            k = r2.choice((2, 3))
+            case["prows_extra"] = [[GG.q(r2.uniform(0, 1)) for _ in pspace] for _ in range(k - 1)]
+            case["prow_index"] = r2.randrange(k)
     return case
 
 
@@ -129,6 +155,8 @@ def run_case(case):
 
 def shrink(case):
     dom = case["dom"]
+    if case.get("prows_extra"):
+        yield {k: v for k, v in case.items() if k not in ("prows_extra", "prow_index")}
     from .geo_common import _sub_domains
     for cand in _sub_domains(dom):
         if G.free_vars(cand) <= {p[0] for p in case.get("pspace") or []} and G.is_boundary(cand) == G.is_boundary(dom):
